@@ -220,6 +220,10 @@ def run(case, rec):
 
     # ---- (b) copying forms (source must stay unchanged) ----------------------------------------
     u = Uids()
+    # (some source nodes carry annotations: the copy may show them or not, but it never shares them)
+    for i, n_ in enumerate(walk(tree).pre):
+        if i % 2 == 0:
+            n_.set_meta("note", i)
     before = snapshot(tree, u)
     for form_name in ("filtered", "copy(predicate)", "copy(add_self=False,predicate)"):
         if form_name == "copy(add_self=False,predicate)" and start is None:
@@ -246,6 +250,13 @@ def run(case, rec):
         w2 = walk(res)
         if w2.problems or res.count != len(w2.pre):
             rec.fail("copy-form:result-malformed", [w2.problems, res.count, len(w2.pre)])
+            return
+        # the copy is a tree of its own: annotating its nodes does not show in the source
+        for n_ in w2.pre:
+            n_.set_meta("note", "changed-in-the-copy")
+            n_.set_meta("extra", 1)
+        if snapshot(tree, u) != before:
+            rec.fail("copy-form:source-changed-by-annotating-the-copy", form_name)
             return
         got_roots = w2.kids[id(None)]
         if start is not None and form_name != "copy(add_self=False,predicate)":
